@@ -669,11 +669,13 @@ fn gen_sel(g: &mut Xo, depth: usize, n: usize, cases: usize) -> Sel {
         4 | 5 => Sel::Random,
         6..=8 => {
             // sizes around the population size: n-1, n, n+1 and 1..=10
-            let k = match g.below(4) {
-                0 => n.saturating_sub(1).max(1),
-                1 => n.max(1),
-                2 => n + 1,
-                _ => g.urange(1, 10),
+            let k = match g.below(9) {
+                0 | 1 => n.saturating_sub(1).max(1),
+                2 | 3 => n.max(1),
+                4 | 5 => n + 1,
+                6 | 7 => g.urange(1, 10),
+                // absurdly large tournaments must still be the documented error
+                _ => *g.pick(&[usize::MAX, usize::MAX / 8 + 1, 1usize << 40, u32::MAX as usize + 1]),
             };
             Sel::Tournament(k)
         }
